@@ -39,7 +39,8 @@ type Program struct {
 	Writers [][]WOp `json:"writers"`
 	Readers [][]ROp `json:"readers"`
 	Procs   int     `json:"procs"`
-	Pre     []int   `json:"pre"` // toggled patterns registered before the goroutines start
+	Pre     []int   `json:"pre"`   // toggled patterns registered before the goroutines start
+	Trace   bool    `json:"trace"` // router created with a TRACE handler as well
 }
 
 type upat struct {
@@ -60,16 +61,20 @@ var toggled = []struct{ pattern, path string }{
 	{"/keep/x", "/keep/x"}, {"/ke", "/ke"}, {"/keep/{id}/y", "/keep/v1/y"}, {"/keep2/z", "/keep2/z"},
 	{"/k/{a}/z", "/k/a/z"}, {"/kee", "/kee"}, {"/{any}", "/zzz"}, {"/keep/{id}/{z}", "/keep/v1/q"},
 	{"/keep/{id}/y/{w}", "/keep/v1/y/w"}, {"/keep22", "/keep22"},
+	// literal siblings of the never-touched /keep/{id}: with them its parent has >= 5 children (first-byte index)
+	{"/keep/a", "/keep/a"}, {"/keep/b", "/keep/b"}, {"/keep/c/one", "/keep/c/one"}, {"/keep/c/two", "/keep/c/two"},
+	{"/keep/d", "/keep/d"}, {"/keep/e", "/keep/e"},
 }
 
-var cleanPrefixes = []string{"/keep/{id}/", "/keep2/", "/keep/{id}/y/", "/k/{a}/z"}
+var cleanPrefixes = []string{"/keep/{id}/", "/keep2/", "/keep/{id}/y/", "/k/{a}/z", "/keep/c/"}
 
 var methodSets = [][]string{{"GET"}, {"POST"}, {"GET", "POST"}, nil, {"DELETE"}}
 
 func gen(t *rapid.T) Program {
 	var p Program
 	p.Procs = rapid.SampledFrom([]int{2, 4, 16}).Draw(t, "procs")
-	p.Pre = rapid.SliceOfNDistinct(rapid.IntRange(0, len(toggled)-1), 0, 5, rapid.ID[int]).Draw(t, "pre")
+	p.Trace = rapid.Bool().Draw(t, "trace")
+	p.Pre = rapid.SliceOfNDistinct(rapid.IntRange(0, len(toggled)-1), 0, 10, rapid.ID[int]).Draw(t, "pre")
 	nw := rapid.IntRange(1, 4).Draw(t, "nwriters")
 	nr := rapid.IntRange(1, 6).Draw(t, "nreaders")
 	for w := 0; w < nw; w++ {
@@ -133,10 +138,14 @@ func patternOfID(id string) string {
 func runProgram(p Program) (map[string]float64, *rig.Violation) {
 	var hid atomic.Int64
 	newH := func(pattern string) *rig.H { return &rig.H{ID: tag(pattern, hid.Add(1)), Kind: "route"} }
+	opts := []mux.Option{mux.WithLock(true)}
+	if p.Trace {
+		opts = append(opts, mux.WithTrace(&rig.H{ID: "trace", Kind: "route"}))
+	}
 	r := mux.NewRouter[*rig.H]("r", rig.Call, &rig.H{ID: "404", Kind: "404"},
 		func(n types.Node) *rig.H { return &rig.H{ID: "405", Kind: "405", Node: n} },
 		func(n types.Node) *rig.H { return &rig.H{ID: "options", Kind: "options", Node: n} },
-		mux.WithLock(true))
+		opts...)
 	uid := map[string]string{}
 	for _, u := range untouched {
 		h := newH(u.pattern)
@@ -158,6 +167,9 @@ func runProgram(p Program) (map[string]float64, *rig.Violation) {
 	}
 	allow := func(ms []string) []string {
 		set := map[string]bool{"OPTIONS": true}
+		if p.Trace {
+			set["TRACE"] = true
+		}
 		for _, m := range ms {
 			set[m] = true
 			if m == "GET" {
@@ -326,9 +338,40 @@ func runProgram(p Program) (map[string]float64, *rig.Violation) {
 		}(ri, ops)
 	}
 	close(start)
-	wg.Wait()
+	done := make(chan struct{})
+	go func() { wg.Wait(); close(done) }()
+	select {
+	case <-done:
+	case <-time.After(40 * time.Second):
+		// the whole program normally takes well under a second: look at what everybody is doing
+		buf := make([]byte, 1<<22)
+		buf = buf[:runtime.Stack(buf, true)]
+		prog, blocked := 0, 0
+		for _, g := range strings.Split(string(buf), "\n\n") {
+			if !strings.Contains(g, "c06.runProgram.func") || strings.Contains(g, "time.After") || strings.Contains(g, "wg.Wait") || strings.Contains(g, "sync.(*WaitGroup).Wait") {
+				continue
+			}
+			prog++
+			if strings.Contains(g, "sync.(*RWMutex).") {
+				blocked++
+			}
+		}
+		if prog > 0 && prog == blocked {
+			return nil, rig.Violf("deadlock", "after 40s all %d remaining program goroutines are blocked on the router's RWMutex (no goroutine can make progress): %s", prog, firstLines(string(buf), 60))
+		}
+		fmt.Printf("CHILD-STALL %d goroutines, %d blocked on the lock\n", prog, blocked)
+		os.Exit(5)
+	}
 	st := map[string]float64{"reader_ops": float64(rops.Load()), "writer_ops": float64(wops.Load()), "overlapping_reader_ops": float64(overlaps.Load())}
 	return st, viol.Load()
+}
+
+func firstLines(s string, n int) string {
+	l := strings.SplitN(s, "\n", n+1)
+	if len(l) > n {
+		l = l[:n]
+	}
+	return strings.Join(l, " | ")
 }
 
 func TestChild(t *testing.T) {
@@ -351,7 +394,7 @@ func TestChild(t *testing.T) {
 // ---- parent -----------------------------------------------------------------
 
 var stats = rig.NewStats("C06",
-	"rapid draws a concurrent program: 1-4 writer scripts (20-200 Handle / Remove / Remove(methods) / Prefix.Clean ops on ten toggled patterns chosen to split and re-merge the nodes of three never-touched routes) and 1-6 reader scripts (20-200 ops: requests to never-touched routes with per-op distinct parameter values, requests to toggled routes, OPTIONS / 405 probes, Routes(), strict URL), generated Gosched points, GOMAXPROCS in {2,4,16}; the program runs in a child process built with -race (halt_on_error) on a WithLock(true) router. Oracle: no race report, no fatal runtime error, child exits 0; never-touched routes are always answered by their own handler with their own parameters and exact Allow sets; toggled requests get 404, or a handler / 405 / OPTIONS belonging to the very route they report with conforming parameters - never a zero or foreign handler; Routes() only lists program patterns and always the never-touched ones; strict URL of never-touched routes always succeeds. Non-trivial: a program in which reader operations overlapped a writer operation (sampled with an atomic in-flight counter; the overlapping count is reported); distinct by hash of the program",
+	"rapid draws a concurrent program: 1-4 writer scripts (20-200 Handle / Remove / Remove(methods) / Prefix.Clean ops on ten toggled patterns chosen to split and re-merge the nodes of three never-touched routes) and 1-6 reader scripts (20-200 ops: requests to never-touched routes with per-op distinct parameter values, requests to toggled routes, OPTIONS / 405 probes, Routes(), strict URL), generated Gosched points, GOMAXPROCS in {2,4,16}; the program runs in a child process built with -race (halt_on_error) on a WithLock(true) router. Half of the programs run on a router that also has a TRACE handler. Oracle: no race report, no fatal runtime error, no deadlock (after 40 s every remaining program goroutine blocked on the router's lock), child exits 0; never-touched routes are always answered by their own handler with their own parameters and exact Allow sets; toggled requests get 404, or a handler / 405 / OPTIONS belonging to the very route they report with conforming parameters - never a zero or foreign handler; Routes() only lists program patterns and always the never-touched ones; strict URL of never-touched routes always succeeds. Non-trivial: a program in which reader operations overlapped a writer operation (sampled with an atomic in-flight counter; the overlapping count is reported); distinct by hash of the program",
 	"interleavings are sampled by the Go scheduler, not enumerated; the race detector's happens-before analysis flags unsynchronised access pairs once both accesses execute",
 	"Router.Use is not part of the program (the property does not list it)")
 
